@@ -145,7 +145,7 @@ func cmdCheck(args []string) int {
 	var reps []*FuncReport
 	for _, q := range eng.cf.Order {
 		c := eng.cf.Contracts[q]
-		touches := c.hasProp(prop)
+		touches := c.hasProp(prop) || contains(c.SafetyProps, prop)
 		if !touches {
 			for _, cl := range append(append([]*Clause{}, c.Ensures...), c.Requires...) {
 				if cl.Props != nil && cl.inProp(c, prop) {
@@ -218,6 +218,11 @@ func cmdCheck(args []string) int {
 	var undecided, knownLines, violLines []string
 	var samples []any
 	violations := 0
+	unlockedReplays := 0
+	unlockedBudget := 3
+	if *tier == "thorough" {
+		unlockedBudget = 40
+	}
 	replayDir := filepath.Join(*verif, "replays")
 	for _, b := range order {
 		g := groups[b]
@@ -271,11 +276,21 @@ func cmdCheck(args []string) int {
 		if len(bad) == 0 {
 			continue
 		}
-		// replay up to three failing instances, stop at the first confirmation
+		// replay up to three failing instances, stop at the first confirmation;
+		// obligations that were never proved get a limited replay budget
 		var rp *replayResult
 		var shown *Obligation
+		maxTry := 3
+		if !isLocked {
+			if unlockedReplays >= unlockedBudget {
+				maxTry = 0
+			} else {
+				maxTry = 1
+				unlockedReplays++
+			}
+		}
 		for k, o := range bad {
-			if k >= 3 {
+			if k >= maxTry {
 				break
 			}
 			r := tryReplay(eng, o, replayDir, prop, *repo)
